@@ -339,6 +339,34 @@ fn program_case_in(ctx: &Ctx, dir: &std::path::Path, prog: &gen::text::Commented
                 .rendered(broken));
             }
         }
+        // two input files that both end inside a comment: each of them gets its own error
+        if t.chance(220) {
+            let second = format!("pragma circom 2.0.0;\ntemplate ZzSecond() {{ signal input a; signal output b; b <== a; }}\n{opener}\ntemplate ZzHidden() {{ signal input a; }}\n");
+            let pa = dir.join("a.circom");
+            let pb = dir.join("b.circom");
+            std::fs::write(&pa, &broken).map_err(|e| Bad::new(format!("INFRA write: {e}")))?;
+            std::fs::write(&pb, &second).map_err(|e| Bad::new(format!("INFRA write: {e}")))?;
+            let files = if t.chance(128) { vec![pa.clone(), pb.clone()] } else { vec![pb.clone(), pa.clone()] };
+            let opts = binrun::RunOpts::files(&files).verbose().level("info");
+            let out2 = binrun::run(&ctx.repo_bin, &opts).map_err(|e| Bad::new(format!("INFRA {e}")))?;
+            if !crashed(&out2) {
+                rec.class("two_files_with_unterminated_comments");
+                let parsed2 = binrun::parse_stdout(&out2.stdout);
+                for f in [&pa, &pb] {
+                    let canon = std::fs::canonicalize(f).unwrap_or(f.clone()).display().to_string();
+                    let reported = parsed2.diags.iter().any(|d| d.severity == "error" && d.loc.as_ref().map(|l| l.0 == canon || l.0 == f.display().to_string()).unwrap_or(false));
+                    if !reported {
+                        return Err(Bad::new(format!(
+                            "two input files end inside a block comment, but no error is located in {}: diagnostics {:?}",
+                            f.display(),
+                            parsed2.diags
+                        ))
+                        .sig("C05:unterminated-accepted-in-one-of-two-files")
+                        .rendered(format!("--- a.circom\n{broken}\n--- b.circom\n{second}")));
+                    }
+                }
+            }
+        }
     }
     Ok(())
 }
